@@ -21,7 +21,9 @@ from lib.core import cbool, cbytes, clist, cpair, vL, vN, vset
 PROPERTY = "C12"
 GEN: list = ["status"]  # translator/statusunit.py -> Gen/StatusPy.v, tied by Proofs/StatusTie.v
 RULE = (
-    "worlds: 6 file objects, 2-4 random directory objects over them (shared files, duplicate entries, "
+    "worlds: 6 file objects (per case a content variant of each is chosen so that its md5 ends with a "
+    "chosen hex digit; the first 32 status cases sweep a VALID UNPROTECTED object of a local store over "
+    "all 16 last digits, for file ids and for .dir ids), 2-4 random directory objects over them (shared files, duplicate entries, "
     "an empty directory), absent file/dir ids. status/compare: random store contents (protected and "
     "unprotected objects; optionally 12 planted objects named 00.. so that the base class takes the "
     "per-id branch for >1 ids; _ALWAYS_TRAVERSE; default = traverse), random queries of >=2 ids (plus a "
@@ -78,14 +80,38 @@ def _zz():
 
 ZZ = _zz()
 
+HEX = "0123456789abcdef"
+
+
+def _variants():
+    """VARIANTS[i][x] = a content of file F<i> whose md5 ends with the hex digit x (the original
+    content of FILES[i] for its own digit, otherwise the content with a searched '#<k>' suffix):
+    a case chooses the last digit of every file id ("ends"), so that every run sees identifiers
+    ending in each hex digit - string operations on ids (suffix stripping) depend on it"""
+    table = []
+    for b in FILES:
+        row = {impl.md5hex(b)[-1]: b}
+        k = 0
+        while len(row) < 16:
+            c = b + b"#%d" % k
+            k += 1
+            row.setdefault(impl.md5hex(c)[-1], c)
+        table.append(row)
+    return table
+
+
+VARIANTS = _variants()
+
 
 class World:
     """names -> oids / bytes.  F<i> files, A<i> absent file ids, D<i> directories given by
     spec {Dname: [[relpath, file name], ...]}, Z<i> the 00-objects."""
 
-    def __init__(self, dirs):
+    def __init__(self, dirs, ends=None):
         self.oid, self.data, self.listing = {}, {}, {}
         for i, b in enumerate(FILES):
+            if ends is not None:
+                b = VARIANTS[i][ends[i]]
             self.oid[f"F{i}"] = impl.md5hex(b)
             self.data[f"F{i}"] = b
         for i, b in enumerate(ABSENT):
@@ -294,6 +320,7 @@ def gen_status_case(rng):
     if rng.random() < 0.35:
         case["cache"] = [d for d in dn if rng.random() < 0.7]
     case["lived"] = gen_lived(rng, store)
+    case["ends"] = [rng.choice(HEX) for _ in range(NF)]
     r = rng.random()
     if r < 0.35:
         case["index"] = None
@@ -396,7 +423,7 @@ def run_status_case(ctx, case, real_ids=False):
     from dvc_data.hashfile.db import get_index
     from dvc_data.hashfile.status import status
 
-    W = World(case["dirs"])
+    W = World(case["dirs"], case.get("ends"))
     root = ctx.fresh("st")
     odb, path = setup_store(ctx, W, root, "store", case["store"], case["unprot"], case["cls"],
                             case["strategy"], lived=case.get("lived"))
@@ -530,19 +557,56 @@ def gen_compare_case(rng):
         case["cache"] = [d for d in dn if rng.random() < 0.8]
     case["lived_src"] = gen_lived(rng, src)
     case["lived_dst"] = gen_lived(rng, dst)
+    case["ends"] = [rng.choice(HEX) for _ in range(NF)]
+    case["unprot_src"] = [n for n in src if rng.random() < 0.3]
+    case["unprot_dst"] = [n for n in dst if rng.random() < 0.3]
     return case
+
+
+def force_dir_digit(case, dname, digit):
+    """give directory [dname] an id whose md5 ends with [digit]: add one searched filler entry"""
+    ents = [e for e in case["dirs"][dname] if not e[0].startswith("n")]
+    for k in range(4000):
+        case["dirs"][dname] = ents + [[f"n{k}", "F0"]]
+        if World(case["dirs"], case.get("ends")).oid[dname].endswith(digit + ".dir"):
+            return
+    raise RuntimeError("no filler found")
+
+
+def digit_sweep(cases):
+    """the first 32 generated status cases become a sweep over the last hex digit of an id: a
+    LocalHashFileDB (no index, fresh handle) holds a VALID, NOT write-protected object - file id
+    (cases 0-15) or directory id (16-31) - ending with each digit, and the query asks for it;
+    unprotected objects are re-hashed and compared with their name by HashFileDB.check"""
+    for k, c in enumerate(cases[:32]):
+        digit = HEX[k % 16]
+        if k < 16:
+            name = f"F{k % NF}"
+            c["ends"][k % NF] = digit
+        else:
+            name = sorted(c["dirs"])[0]
+            force_dir_digit(c, name, digit)
+        c["cls"] = "local"
+        c["lived"] = None
+        c["index"] = None
+        c.pop("cache", None)
+        c["store"] = sorted(set(c["store"]) | {name})
+        c["unprot"] = sorted(set(c["unprot"]) | {name})
+        if name not in c["q"]:
+            c["q"].append(name)
+        c["sweep"] = f"{'file' if k < 16 else 'dir'}-id-ends-{digit}"
 
 
 def run_compare_case(ctx, case, real_ids=False):
     from dvc_data.hashfile.db import get_index
     from dvc_data.hashfile.status import compare_status
 
-    W = World(case["dirs"])
+    W = World(case["dirs"], case.get("ends"))
     root = ctx.fresh("cmp")
-    src, spath = setup_store(ctx, W, root, "src", case["src"], (), "local", "default",
-                             lived=case.get("lived_src"))
-    dst, dpath = setup_store(ctx, W, root, "dst", case["dst"], (), case["cls"], case["strategy"],
-                             lived=case.get("lived_dst"))
+    src, spath = setup_store(ctx, W, root, "src", case["src"], case.get("unprot_src", ()), "local",
+                             "default", lived=case.get("lived_src"))
+    dst, dpath = setup_store(ctx, W, root, "dst", case["dst"], case.get("unprot_dst", ()), case["cls"],
+                             case["strategy"], lived=case.get("lived_dst"))
     cache_odb = None
     if case.get("cache") is not None:
         cpath = os.path.join(root, "cache")
@@ -715,7 +779,7 @@ def run_history_case(ctx, case):
     from dvc_data.hashfile.status import status
     from dvc_data.hashfile.transfer import transfer
 
-    W = World(case["dirs"])
+    W = World(case["dirs"], case.get("ends"))
     root = ctx.fresh("h")
     src, spath = setup_store(ctx, W, root, "src", case["src"], (), "local", "default", tmp=False)
     inj = Injector()
@@ -922,7 +986,12 @@ def run(ctx):
     cmp_cases = [c for c in corpus if c["kind"] == "compare"]
     h_cases = [c for c in corpus if c["kind"] == "history"]
     ctx.count("corpus", len(corpus))
-    st_cases += [gen_status_case(rng) for _ in range(ctx.n(220, 2000))]
+    gen_st = [gen_status_case(rng) for _ in range(ctx.n(220, 2000))]
+    digit_sweep(gen_st)
+    for c in gen_st:
+        if c.get("sweep"):
+            ctx.count("status:sweep:" + c["sweep"].split("-")[0] + "-id-last-digit")
+    st_cases += gen_st
     cmp_cases += [gen_compare_case(rng) for _ in range(ctx.n(120, 1000))]
     max_ops = 10 if ctx.tier == "quick" else 30
     for _ in range(ctx.n(70, 600)):
